@@ -187,9 +187,9 @@ def h_dm1_overlap(ex, n=3, cycle='3/50', cycles=5):
 
 def jobs(tier):
     q = tier == 'quick'
-    out = [Job('C16', 'c16:h_dtc_encode', {}, W=64, wall=60), Job('C16', 'c16:h_dtc_decode', {}, W=64, wall=60),
+    out = [Job('C16', 'c16:h_dtc_encode', {}, W=64, wall=600, cross=not q), Job('C16', 'c16:h_dtc_decode', {}, W=64, wall=600, cross=not q),
            Job('C16', 'c16:h_lamps', {}, W=40, wall=300, max_paths=5000, validate=3),
-           Job('C16', 'c16:h_dm22', {'which': 'act'}, W=40, wall=60), Job('C16', 'c16:h_dm22', {'which': 'pa'}, W=40, wall=60)]
+           Job('C16', 'c16:h_dm22', {'which': 'act'}, W=40, wall=600, cross=not q), Job('C16', 'c16:h_dm22', {'which': 'pa'}, W=40, wall=600, cross=not q)]
     for n in ([1, 2, 3, 15] if q else list(range(1, 21)) + [100, 400, 445]):
         cycle = '1' if n <= 15 else ('2' if n <= 30 else ('8' if n <= 100 else '30'))
         out.append(Job('C16', 'c16:h_dm1', {'n': n, 'cycle': cycle, 'sym_lamps': 2 if q else (4 if n <= 2 else 2), 'cycles': 2},
